@@ -295,6 +295,9 @@ class QGen:
             inner = self.logical(samples, depth, ldepth + 1)
             neg = self.rng.choice(["!", "not "])
             return f"{neg}({inner})" if (" " in inner or self.rng.random() < 0.3) else f"{neg}{inner}"
+        if self.opts.get("p_trip") and self.rng.random() < self.opts["p_trip"]:
+            # the simulator's fault seam inside filter evaluation (jpsim/tripwire.py)
+            return f"tripwire({self.singular(samples)})"
         r = self.rng.random()
         if r < 0.5:
             return self.comparison(samples, depth)
